@@ -5,6 +5,7 @@ mod api;
 mod arith;
 mod conc;
 mod eqv;
+mod imports;
 mod interp;
 mod progen;
 mod lang;
@@ -48,6 +49,7 @@ fn main() {
             "api" => out(&api::run(&args[2..])),
             "statics" => statics::run(&args[2..]),
             "interp" => out(&interp::run_file(&args[2..])),
+            "imports" => out(&imports::run(&args[2..])),
             "det" => {
                 lang::det(&args[2..]);
             }
